@@ -13,8 +13,9 @@ C17 driver.  One request per line:
 
 Answer: `panic` or
   `ok rd{..} nodes[KIND{k=v;..}|..] inval[@inv>@target,..] look["name:KIND|-|?,..] store[VAL,..] imm[id,..]`
-(`store` = every value-store cell in id order: one cell per declared immediate, in document
-order; `imm` = the raw value ids of the immediates in the order `nodes[..]` prints them)
+(`store` = the value-store cells in the order the immediates of `nodes[..]` first refer to them,
+then `n=<number of cells>`; `imm` = the value ids of the immediates in the order `nodes[..]`
+prints them, renumbered by first use)
 nodes in `visit_nodes` order (ascending id) with every public getter (references as `@hex name`,
 value-store contents behind value ids, floats as bit patterns); `inval` = `store_invalidator`
 calls in call order; `look` = `id_by_name` + `node_opt` of the requested names.  The field
@@ -99,15 +100,19 @@ def parseF64Bits (s : List Char) : Option UInt64 :=
             some (decToBits neg m (ev - fp.length))
         else none
 
+/-- f64 values are carried as their bit patterns (`F := UInt64`): the parser never computes
+with them, and Lean's `Float.toBits` canonicalises NaNs (the sign of `-nan` would be lost). -/
+abbrev F64 := UInt64
+
 /-- `formulas`: the texts `formula::parse` accepts, with the digest of the parsed AST
 (supplied by the harness with every request; formula syntax is property C05). -/
-@[reducible] def floatLit (formulas : List (Str × String)) : FloatLit Float where
-  inf := Float.ofBits 0x7ff0000000000000
-  negInf := Float.ofBits 0xfff0000000000000
-  f64Min := Float.ofBits 0xffefffffffffffff
-  f64Max := Float.ofBits 0x7fefffffffffffff
-  parse s := (parseF64Bits s).map Float.ofBits
-  ofInt i := Float.ofInt i
+@[reducible] def floatLit (formulas : List (Str × String)) : FloatLit F64 where
+  inf := 0x7ff0000000000000
+  negInf := 0xfff0000000000000
+  f64Min := 0xffefffffffffffff
+  f64Max := 0x7fefffffffffffff
+  parse s := parseF64Bits s
+  ofInt i := (Float.ofInt i).toBits
   formulaOk s := formulas.any fun x => x.1 == s
 
 /-! ## Request decoding -/
@@ -174,11 +179,10 @@ def dOB : Option Bool → String | none => "~" | some b => dB b
 def dOU : Option Nat → String | none => "~" | some n => toString n
 def dInt (i : Int) : String := toString i
 
-def dFB (f : Float) : String :=
-  if f.isNaN then "7ff8000000000000" else natToHex 16 f.toBits.toNat
+def dFB (f : F64) : String := natToHex 16 f.toNat
 
 structure Ctx where
-  st : St Float
+  st : St F64
   formulas : List (Str × String)
 
 def Ctx.name (c : Ctx) (id : Nat) : Str := c.st.names.getD id ['?']
@@ -201,7 +205,7 @@ def dIPV (c : Ctx) : ImmOrP Nat → String
 def dIPI (c : Ctx) : ImmOrP Int → String
   | .imm v => "I(" ++ dInt v ++ ")"
   | .pnode id => "P(" ++ dR c id ++ ")"
-def dIPF (c : Ctx) : ImmOrP Float → String
+def dIPF (c : Ctx) : ImmOrP F64 → String
   | .imm v => "I(" ++ dFB v ++ ")"
   | .pnode id => "P(" ++ dR c id ++ ")"
 def dIPU (c : Ctx) : ImmOrP Nat → String
@@ -267,10 +271,10 @@ def dX (c : Ctx) (s : Str) : String :=
   | none => "?"
 def dNVR (c : Ctx) (v : NamedValue Nat) : String := dS v.name ++ ":" ++ dR c v.value
 def dNVI (v : NamedValue Int) : String := dS v.name ++ ":" ++ dInt v.value
-def dNVF (v : NamedValue Float) : String := dS v.name ++ ":" ++ dFB v.value
+def dNVF (v : NamedValue F64) : String := dS v.name ++ ":" ++ dFB v.value
 def dNVX (c : Ctx) (v : NamedValue Str) : String := dS v.name ++ ":" ++ dX c v.value
 
-def kindName : NodeData Float → String
+def kindName : NodeData F64 → String
   | .node _ => "Node" | .category _ => "Category" | .integer _ => "Integer" | .intReg _ => "IntReg"
   | .maskedIntReg _ => "MaskedIntReg" | .boolean _ => "Boolean" | .command _ => "Command"
   | .enumeration _ => "Enumeration" | .enumEntry _ => "EnumEntry" | .float _ => "Float"
@@ -278,7 +282,7 @@ def kindName : NodeData Float → String
   | .register _ => "Register" | .converter _ => "Converter" | .intConverter _ => "IntConverter"
   | .swissKnife _ => "SwissKnife" | .intSwissKnife _ => "IntSwissKnife" | .port _ => "Port"
 
-def dNode (c : Ctx) (d : NodeData Float) : String :=
+def dNode (c : Ctx) (d : NodeData F64) : String :=
   let body : List String := match d with
     | .node n => [dBase c n.attr n.elem false]
     | .category n => [dBase c n.attr n.elem false, "pf=" ++ dLR c n.pFeatures]
@@ -298,7 +302,7 @@ def dNode (c : Ctx) (d : NodeData Float) : String :=
     | .enumeration n => [dBase c n.attr n.elem n.streamable, "ent=" ++ dLR c n.entries,
         "val=" ++ dIPV c n.value, "sel=" ++ dLR c n.pSelected, "pt=" ++ dOU n.pollingTime]
     | .enumEntry n => [dBase c n.attr n.elem false, "v=" ++ dInt n.value,
-        "nv=" ++ dFB (n.numericValue.getD (Float.ofInt n.value)), "sym=" ++ dS n.symbolic,
+        "nv=" ++ dFB (n.numericValue.getD (Float.ofInt n.value).toBits), "sym=" ++ dS n.symbolic,
         "sc=" ++ dB n.isSelfClearing]
     | .float n => [dBase c n.attr n.elem n.streamable, "vk=" ++ dVK c n.valueKind,
         "min=" ++ dIPV c n.min, "max=" ++ dIPV c n.max,
@@ -340,7 +344,7 @@ def dRD (rd : RegisterDescription) : String :=
     s!"v={rd.major}.{rd.minor}.{rd.subMinor}", "pg=" ++ dS rd.productGuid, "vg=" ++ dS rd.versionGuid]
 
 /-- nodes in `visit_nodes` order = ascending id -/
-def sortedNodes (st : St Float) : List (Nat × NodeData Float) :=
+def sortedNodes (st : St F64) : List (Nat × NodeData F64) :=
   st.nodes.mergeSort (fun a b => a.1 ≤ b.1)
 
 def ipIds : ImmOrP Nat → List Nat
@@ -353,7 +357,7 @@ def vkIds : ValueKind Nat → List Nat
   | .pIndex p => (p.valueIndexed.flatMap fun vi => ipIds vi.indexed) ++ ipIds p.valueDefault
 
 /-- value-store ids of the immediates of a node, in the order `dNode` prints them -/
-def immIds : NodeData Float → List Nat
+def immIds : NodeData F64 → List Nat
   | .integer n => vkIds n.valueKind ++ ipIds n.min ++ ipIds n.max
   | .float n => vkIds n.valueKind ++ ipIds n.min ++ ipIds n.max
   | .boolean n => ipIds n.value
@@ -362,13 +366,13 @@ def immIds : NodeData Float → List Nat
   | .string n => ipIds n.value
   | _ => []
 
-def dCell : Value Float → String
+def dCell : Value F64 → String
   | .int i => "i" ++ dInt i
   | .float f => "f" ++ dFB f
   | .str s => "s" ++ dS s
   | .bool b => "b" ++ dB b
 
-def dLook (st : St Float) (name : Str) : String :=
+def dLook (st : St F64) (name : Str) : String :=
   dS name ++ ":" ++
     match findName name st.names with
     | none => "?"
@@ -377,14 +381,19 @@ def dLook (st : St Float) (name : Str) : String :=
       | some (_, d) => kindName d
       | none => "-"
 
-def dDoc (rd : RegisterDescription) (st : St Float) (formulas : List (Str × String))
+def dDoc (rd : RegisterDescription) (st : St F64) (formulas : List (Str × String))
     (looks : List Str) : String :=
   let c : Ctx := ⟨st, formulas⟩
   "ok rd{" ++ dRD rd ++ "} nodes[" ++ "|".intercalate ((sortedNodes st).map fun x => dNode c x.2) ++
   "] inval[" ++ ",".intercalate (st.invals.map fun x => dR c x.1 ++ ">" ++ dR c x.2) ++
   "] look[" ++ ",".intercalate (looks.map (dLook st)) ++
-  "] store[" ++ ",".intercalate (st.values.map dCell) ++
-  "] imm[" ++ ",".intercalate (((sortedNodes st).flatMap fun x => immIds x.2).map toString) ++ "]"
+  let raw := (sortedNodes st).flatMap fun x => immIds x.2
+  -- first-use order of the cells; ids renumbered by first use (a pure renumbering of the cells
+  -- does not show, two immediates sharing a cell do)
+  let order := raw.foldl (fun acc i => if acc.contains i then acc else acc ++ [i]) []
+  let cells := order.map fun i => match st.values[i]? with | some v => dCell v | none => "!"
+  "] store[" ++ ",".intercalate (cells ++ [s!"n={st.values.length}"]) ++
+  "] imm[" ++ ",".intercalate (raw.map fun i => toString (order.idxOf i)) ++ "]"
 
 def takeLooks : Nat → List String → Option (List Str × List String)
   | 0, ts => some ([], ts)
@@ -404,8 +413,8 @@ def takeFormulas : Nat → List String → Option (List (Str × String) × List 
 
 def handleDoc (pr : Profile) (formulas : List (Str × String)) (looks : List Str) (root : Elem) :
     String :=
-  letI : FloatLit Float := floatLit formulas
-  match (parseDocument pr root : R (RegisterDescription × St Float)) with
+  letI : FloatLit F64 := floatLit formulas
+  match (parseDocument pr root : R (RegisterDescription × St F64)) with
   | .ok (rd, st) => dDoc rd st formulas looks
   | .err _ => "err"
   | .panic => "panic"
